@@ -143,3 +143,26 @@ Proof.
   intros r rest Hb. now apply to_layout_is_the_indexed_layout_array.
 Qed.
 Print Assumptions C05_layout_with_filters.
+
+(* ---- what the regenerated glue of create_state_choice_space plans for a model's variable_info ----------------------------- *)
+From LCM Require Import Spec.Lang Gen.ChoiceAxes Gen.StateSpaceGlue Proofs.C18_VarInfo Proofs.C05_PlanOfModel.
+(* Without filter-restricted variables every variable but the continuous choices is product-mapped (dense), in the order     *)
+(* discrete states, discrete choices, continuous states; the value array's axes are the discrete states then the continuous    *)
+(* states (looked up by label / interpolated), no state indexer.  With filter-restricted variables those are stored as         *)
+(* combinations (restricted states first, their number passed on), the array gets the leading axis "state_index" iff there is   *)
+(* a restricted state, and the indexer maps from the restricted states' labels.  This is the layout C01's period theorems       *)
+(* (with and without filters) and C14's capstones assume.                                                                       *)
+Theorem C05_code_space_plan_of_a_model :
+  (forall (dst dch cst cch : list (string * grid)) (period : nat) (is_last : bool),
+     create_state_choice_space_plan (vi_of dst dch cst cch) period is_last
+     = mkPlan (map fst dst ++ map fst dch ++ map fst cst) None None period None false
+              (map fst dst ++ map fst cst) (map fst dst) (map fst cst) None) /\
+  (forall (rs rc dst dch cst cch : list (string * grid)) (period : nat) (is_last : bool), (rs ++ rc)%list <> [] ->
+     create_state_choice_space_plan (vi_sparse rs rc dst dch cst cch) period is_last
+     = mkPlan (map fst dst ++ map fst dch ++ map fst cst) (Some (map fst rs ++ map fst rc)) (Some (map fst rs ++ map fst rc)) period
+              (Some (length rs)) (match rs with [] => false | _ => true end)
+              (match rs with [] => map fst dst ++ map fst cst | _ => "state_index"%string :: map fst dst ++ map fst cst end)
+              (map fst rs ++ map fst dst) (map fst cst)
+              (match rs with [] => None | _ => Some (map fst rs) end)).
+Proof. split; [exact plan_of_a_model_without_filters|exact plan_of_a_model_with_filters]. Qed.
+Print Assumptions C05_code_space_plan_of_a_model.
